@@ -5,6 +5,7 @@ import asyncio
 
 from harness import core
 from harness import sandbox_common as sc
+from harness.props import c18_hist
 from translate import sandbox as tr_sandbox
 
 ID = "C18"
@@ -202,16 +203,31 @@ def run(ctx, res):
         out = asyncio.run(t.render_async(F=lambda: "fine")) if env.is_async else t.render(F=lambda: "fine")
         if out != "fine":
             raise core.HarnessError(f"C18 control failed in {envname}: {out!r}")
+    # histories of calls in one environment: safe short-lived callables first, then an unsafe one (c18_hist.py)
+    hist = c18_hist.run(ctx, res, jinja2, sandbox, structural=sc.structural_violations)
+    if not hist["history_safe_calls_run"]:
+        raise core.HarnessError("C18 histories: no safe call ran (vacuous)")
+    evaluations += hist["history_evaluations"]
+    res.coverage.update(hist)
     res.coverage.update({
         "evaluations": evaluations + n_cross,
-        "distinct_nontrivial": len(distinct),
+        "distinct_nontrivial": len(distinct) + hist["history_distinct"],
         "rule": ("12-13 recording callables (unsafe_callable, alters_data, alters_data with unsafe_callable=False, bound "
                  "methods, callable object, callable objects with a pass_context/pass_environment/pass_eval_context __call__ "
                  "marked at class or instance level, rejected-by-override) x 31 paths (direct, aliases, attribute/dict/list "
                  "holders, macro argument/default, call block target/body/caller argument, loop variables, filter and "
                  "test arguments, conditions, set/filter blocks, star-args, nested calls, import, include, block, "
                  "recursive loop; i18n functions) x sandboxed/async/immutable/overridden-check environments; oracle = "
-                 "the recorder never ran; structural check of every program; cross-run of translated decisions"),
+                 "the recorder never ran; structural check of every program; cross-run of translated decisions. "
+                 "HISTORIES (c18_hist.py): per environment kind 160 (quick) / 1200 (thorough) random call histories in ONE "
+                 "environment (fresh per history, or a long-lived shared one): 1-3 renders, each a few safe calls of "
+                 "short-lived callables (bound methods made by attribute access, per-access closures, functools.partial "
+                 "objects, callable instances) written along 34 routes (direct, set/with aliases of the object, of the "
+                 "callable and of the result, macros, call blocks, filter/test arguments, attr/map filters, loops, blocks, "
+                 "import) and then one unsafe call of the same kind (unsafe_callable, alters_data, alters_data with "
+                 "unsafe_callable=False, rejected by an overridden is_safe_callable by attribute or by name) so that the "
+                 "unsafe object reuses the freed safe one's address; non-trivial = the safe prefix ran and the unsafe call "
+                 "is reached unconditionally; oracle = recorder never ran and the last render ends in SecurityError"),
         "samples": [{"src": PATHS[8][1], "callable": "alters"}, {"src": PATHS[10][1], "callable": "unsafe"}],
         "structural_programs": structural_programs,
         "decision_crosscheck_cases": n_cross,
@@ -220,4 +236,9 @@ def run(ctx, res):
 
 
 def replay(ctx, case):
-    return case["case"]
+    c = case["case"]
+    if isinstance(c, dict) and c.get("family") == "history":
+        jinja2 = core.import_jinja()
+        from jinja2 import sandbox
+        return c18_hist.replay(ctx, c, jinja2, sandbox)
+    return c
